@@ -226,11 +226,11 @@ type Node struct {
 	Members wasp.NodeMemberManager
 	Dist    *wasp.PublishDistributor
 
-	lis   *bufconn.Listener
-	srv   *grpc.Server
-	conns map[uint64]*grpc.ClientConn
+	lis    *bufconn.Listener
+	srv    *grpc.Server
+	conns  map[uint64]*grpc.ClientConn
 	dialMu chanMutex
-	wg    sync.WaitGroup
+	wg     sync.WaitGroup
 
 	Consumed   []uint64
 	AckInserts []AckInsert
@@ -741,7 +741,6 @@ func decodeSessions(b []byte) map[string]bool {
 	}
 	return out
 }
-
 
 // chanMutex is a mutex built on a channel: unlike sync.Mutex, blocking on it is "durably blocked" for testing/synctest.
 type chanMutex struct {
